@@ -127,30 +127,7 @@ func (g *sgen) stringLit() string {
 	return g.stringToken(g.pick(HostileStrings))
 }
 
-// runeClasses: the code points strings are composed from, by the way printers, lexers and
-// escapers may treat them differently.
-var runeClasses = [][]rune{
-	{'a', 'Z', '0', ' ', '_', 'n', 'u'},
-	{'"', '\\', '/', '#', ',', ']', '}', '{', '$', '!', '\''},
-	{'\t', '\n', '\r', '\b', '\f'},
-	{0x00, 0x01, 0x07, 0x0B, 0x1B, 0x1F, 0x7F},
-	{0x80, 0x85, 0x9F, 0xA0, 0xAD},
-	{0x2028, 0x2029, 0x200B, 0x200E, 0x202E, 0xFEFF, 0x061C},
-	{0xD7FF, 0xE000, 0xF8FF, 0xFFFD, 0xFFFE, 0xFFFF, 0xFDD0},
-	{0x10000, 0x1F600, 0x1D11E, 0x2F800},
-	{0xE0001, 0xE0020, 0xF0000, 0xFFFFD, 0x100000, 0x10FFFF, 0x3FFFD, 0x1FFFE},
-	{0x0301, 0x3099, 0xFE0F},
-	{0xFC, 0xDF, 0x4E16, 0x05D0},
-}
-
-func (g *sgen) composeString() string {
-	var sb strings.Builder
-	for i, n := 0, g.n(1, 6); i < n; i++ {
-		cl := runeClasses[rnd.Uniform(g.t, len(runeClasses), "runeClass")]
-		sb.WriteRune(cl[rnd.Uniform(g.t, len(cl), "rune")])
-	}
-	return sb.String()
-}
+func (g *sgen) composeString() string { return rnd.ComposeString(g.t) }
 
 var blockPieces = []string{"x", "text here", `\"""`, `"`, `""`, `\`, `\n`, "\u00fcn\u00ef", "#c", "trailing  ", ",", "\U0001F600", "\U000F0000", "\u2028", "\ufeff", "a\tb", "\u007f", "\u0085"}
 
